@@ -35,7 +35,9 @@ def backends(prog: Program):
 
 def _is_abstract(f) -> bool:
     body = [s for s in f.node.body if not (isinstance(s, ast.Expr) and isinstance(s.value, ast.Constant))]
-    return len(body) == 1 and isinstance(body[0], ast.Raise) and "NotImplementedError" in norm(body[0])
+    # abstract = ends by raising NotImplementedError at top level and never returns a value
+    return bool(body) and isinstance(body[-1], ast.Raise) and "NotImplementedError" in norm(body[-1]) \
+        and not any(isinstance(x, (ast.Return, ast.Yield)) for x in ast.walk(f.node))
 
 
 def _delegates(f, names) -> bool:
